@@ -57,6 +57,17 @@ def acase(c):
         runs = "[" + "; ".join("(" + "[" + "; ".join("true" if b else "false" for b in r["bits"]) + f"], {qq(r['p'])}, {qq(r['t'])})"
                                for r in c["runs"]) + "]"
         return f"CAdev {eprog(c['prog'], c['theta'])} {runs}"
+    if c["kind"] == "reparam":
+        th = c["theta"]
+        L = c["L"]
+
+        def dual(a, b):
+            return f"(({qc(a)} + {qc(b)} * {qc(th)})%Qc, {qc(b)})"
+        mus = [dual(c["ma"][i if c["mu_vec"] else 0], c["mb"][i if c["mu_vec"] else 0]) for i in range(L)]
+        sgs = [dual(c["sa"][i if c["sg_vec"] else 0], c["sb"][i if c["sg_vec"] else 0]) for i in range(L)]
+        lst = lambda xs: "[" + "; ".join(xs) + "]"  # noqa: E731
+        return (f"CReparam {'true' if c['uniform'] else 'false'} {lst(mus)} {lst(sgs)} {lst([qc(e) for e in c['eps']])} "
+                f"{lst([qc(w) for w in c['ws']])} {qq(c['p'])} {qq(c['t'])}")
     if c["kind"] == "canon":
         return f"CCanon {n(c['kin'])} {n(c['kout'])}"
     ok = c.get("ok_jvp") and c.get("ok_grad") and c.get("ok_est") and c.get("ok_jit")
@@ -100,14 +111,18 @@ def run(ctx):
         else:
             bad += [(off + i, a, s, x) for (i, a, s, x) in r["bad"]]
     if which == "c11":
-        nt = len({json.dumps([c["prog"], c["theta"]]) for c in cases if "err" not in c and len(c["prog"]["sites"]) >= 2})
-        hist = {"estimators": Counter(s["est"] for c in cases for s in c["prog"]["sites"]),
-                "sites": Counter(len(c["prog"]["sites"]) for c in cases),
+        nt = len({json.dumps([c["prog"], c["theta"]]) for c in cases if c["kind"] == "adev" and "err" not in c and len(c["prog"]["sites"]) >= 2}) \
+            + len({json.dumps({k: v for k, v in c.items() if k not in ("p", "t")}, sort_keys=True) for c in cases if c["kind"] == "reparam" and c["L"] >= 2})
+        hist = {"estimators": Counter(s["est"] for c in cases if c["kind"] == "adev" for s in c["prog"]["sites"]),
+                "sites": Counter(len(c["prog"]["sites"]) for c in cases if c["kind"] == "adev"),
+                "reparam": Counter(("uniform" if c["uniform"] else "normal") + f":L{c['L']}:mu{int(c['mu_vec'])}sg{int(c['sg_vec'])}" for c in cases if c["kind"] == "reparam"),
                 "errors": Counter(c.get("err", "")[:70] for c in cases if "err" in c)}
         rule = ("random expectation programs of 1-3 flip sites (enumeration, parallel enumeration, REINFORCE, measure-valued derivative; theta-dependent "
                 "probabilities, optionally depending on the previous outcome; leaf values with theta terms and a cross term); every outcome vector of the "
                 "sampled sites is scripted; per-outcome (primal, tangent) compared with the model's estimator, their probability-weighted mean with the exact "
-                "dual expectation; enumeration-only programs also under jit(seed(.)), grad_estimate and estimate; non-trivial = distinct program with >=2 sites")
+                "dual expectation; enumeration-only programs also under jit(seed(.)), grad_estimate and estimate; plus normal_reparam / uniform_reparam sites with scalar or "
+                "batched location and scale, scripted noise, followed by a lane-coupling continuation: primal and tangent compared with the pathwise dual; "
+                "non-trivial = distinct flip program with >=2 sites or batched reparameterised site")
     else:
         nt = len({c.get("name", str(c.get("kin"))) for c in cases if "err" not in c})
         hist = {"programs": Counter(c.get("name", "canon") for c in cases),
